@@ -22,7 +22,7 @@ RULE = ('AES: two designs per run, each built by ONE shared AES() object whose u
         'seeded random 128-bit key/block pairs on successive cycles (state machines: reset pulses with '
         'bogus data in between, early re-resets, random reset schedules); PRNGs: seeds x bitwidth in '
         '{1,7,63,64,65,127,128,129,200,256} x bits_per_cycle in {1,2,4,8,16,32,64} (3 and 17 must be '
-        'rejected) x protocol-abiding, random, and LONG-IDLE load/req schedules (idle stretches in every waiting state longer '
+        'rejected) x seed given as a WireVector or as a Python int constant (0, 1, small, top bit, all ones, full width) x protocol-abiding, random, and LONG-IDLE load/req schedules (idle stretches in every waiting state longer '
         'than 2**width of every small register read off the built netlist, plus req/load at arbitrary phases); every output compared on every '
         'cycle; the step functions REGENERATED from prngs.py (Gen/PrngFrag.v) are run on the long-idle, suite-vector and '
         'a sample of the other schedules (every protocol-abiding one in the thorough tier) and compared with the circuits too.  A case is distinct by (circuit, parameters, stimulus) and non-trivial when its outputs '
@@ -571,11 +571,13 @@ BITWIDTHS = [1, 7, 63, 64, 65, 127, 128, 129, 200, 256]
 BPCS = [1, 2, 4, 8, 16, 32, 64]
 
 
-def build_prng(kind, bw, bpc=None, fast=False):
+def build_prng(kind, bw, bpc=None, fast=False, const_seed=None):
+    """const_seed: the seed is given as a Python int constant (the other documented call form) instead
+    of a WireVector; every load then loads that constant"""
     pyrtl.reset_working_block()
     load, req = pyrtl.Input(1, 'load'), pyrtl.Input(1, 'req')
     seedw = {'lfsr': 127, 'xoro': 128, 'triv': 160}[kind]
-    seed = pyrtl.Input(seedw, 'seed')
+    seed = pyrtl.Input(seedw, 'seed') if const_seed is None else const_seed
     rand = pyrtl.Output(bw, 'rand')
     ready = pyrtl.Output(1, 'ready')
     if kind == 'lfsr':
@@ -694,6 +696,15 @@ def quads(rows):
     return '(expand [' + '; '.join('(%d,%d,%#x,%d)' % tuple(r) for r in rows) + '])'
 
 
+SEED_CONSTS = ('zero', 'one', 'small', 'top-bit', 'all-ones', 'full-width')
+
+
+def seed_const(rng, kind, label):
+    w = {'lfsr': 127, 'xoro': 128, 'triv': 160}[kind]
+    return {'zero': 0, 'one': 1, 'small': rng.randint(2, 255), 'top-bit': 1 << (w - 1), 'all-ones': (1 << w) - 1,
+            'full-width': rng.getrandbits(w) | (1 << (w - 1))}[label]
+
+
 def prng_configs(ctx):
     cfgs = []
     quick = ctx.tier == 'quick'
@@ -713,6 +724,12 @@ def prng_configs(ctx):
                         continue
                 for rep in range(1 if (quick or bpc < 8) else 2):
                     cfgs.append(('triv', bw, bpc, style, rep))
+    # the seed given as a Python int constant (call form `seed=<int>`): 0, 1, small, top bit, all ones, full width
+    for kind, bws, bpcs in (('lfsr', (64, 200), (None,)), ('xoro', (65, 128), (None,)), ('triv', (128, 7), (64, 8))):
+        for label in SEED_CONSTS:
+            for k, bw in enumerate(bws if not quick else bws[:1]):
+                for bpc in (bpcs if not quick else bpcs[:1]):
+                    cfgs.append((kind, bw, bpc, 'const:' + label, 0))
     # long-idle protocol histories (idle lengths derived from the counter widths of the built design)
     for bw in ((7, 128) if quick else BITWIDTHS):
         cfgs.append(('lfsr', bw, None, 'idle', 0))
@@ -747,7 +764,12 @@ def check_prngs(ctx):
     for cfg in prng_configs(ctx):
         kind, bw, bpc, style, rep = cfg
         rng = ctx.sub_rng('prng', *cfg)
-        cases.append((cfg, None if style == 'idle' else prng_schedule(rng, kind, bw, bpc, style)))
+        if style.startswith('const:'):
+            c = seed_const(rng, kind, style[6:])
+            rle = [(l, r, c, n) for (l, r, _, n) in prng_schedule(rng, kind, bw, bpc, 'protocol')]
+            cases.append((cfg, rle))
+        else:
+            cases.append((cfg, None if style == 'idle' else prng_schedule(rng, kind, bw, bpc, style)))
     exprs_m, exprs_s = [], {}
     # C18_prng_protocol proves model run = protocol-spec run for EVERY schedule, so in the quick tier the Coq
     # spec is evaluated on a sample only; the exact per-cycle search uses the Python references on all cases
@@ -755,7 +777,9 @@ def check_prngs(ctx):
     impl = []
     for ci, (cfg, rle) in enumerate(cases):
         kind, bw, bpc, style, rep = cfg
-        blk = build_prng(kind, bw, bpc, fast=None)
+        const = rle[0][2] if style.startswith('const:') else None
+        blk = build_prng(kind, bw, bpc, fast=None, const_seed=const)
+        ctx.count('prng-seed-form', 'python-int' if const is not None else 'wirevector')
         if rle is None:
             span = counter_span(blk)
             ctx.count('prng-idle-counter-span', '%s:%s' % (kind, span))
@@ -767,7 +791,7 @@ def check_prngs(ctx):
         ref = {'lfsr': lambda: RefLfsr(bw), 'xoro': lambda: RefXoroshiro(bw), 'triv': lambda: RefTrivium(bw, bpc)}[kind]()
         tr, rf = [], []
         for (l, r, s) in rows:
-            sim.step({'load': l, 'req': r, 'seed': s})
+            sim.step({'load': l, 'req': r, 'seed': s} if const is None else {'load': l, 'req': r})
             got = [sim.tracer.trace['ready'][-1], sim.tracer.trace['rand'][-1]]
             want = ref.cycle(l, r, s)
             if kind == 'lfsr':
@@ -777,7 +801,7 @@ def check_prngs(ctx):
                 tr.append(got)
                 rf.append(list(want))
         impl.append((tr, rf))
-        if style in ('idle', 'suite-vectors') or (ctx.tier != 'quick' and style == 'protocol') or (style == 'protocol' and (kind, bw) in (('lfsr', 129), ('lfsr', 256), ('xoro', 63), ('xoro', 129), ('triv', 200))):
+        if style in ('idle', 'suite-vectors') or style.startswith('const:') or (ctx.tier != 'quick' and style == 'protocol') or (style == 'protocol' and (kind, bw) in (('lfsr', 129), ('lfsr', 256), ('xoro', 63), ('xoro', 129), ('triv', 200))):
             exprs_g[ci] = {'lfsr': 'g_lfsr_sum %d %s' % (bw, quads(rle)), 'xoro': 'g_xo_sum %d %s' % (bw, quads(rle)),
                            'triv': 'g_tv_sum %d %d %s' % (bw, bpc or 0, quads(rle))}[kind]
         if kind == 'lfsr':
@@ -789,7 +813,7 @@ def check_prngs(ctx):
         else:
             exprs_m.append('tv_sum %d %d %s' % (bw, bpc, quads(rle)))
             spec_expr = 's_tv_sum %d %d %s' % (bw, bpc, quads(rle))
-        if ctx.tier != 'quick' or style in ('idle', 'suite-vectors') or ci % 5 == 0:
+        if ctx.tier != 'quick' or style in ('idle', 'suite-vectors') or style.startswith('const:') or ci % 5 == 0:
             exprs_s[ci] = spec_expr
     res_m = ctx.coq_eval(exprs_m, IMPORTS, tag='prngm', shard=6, jobs=12)
     skeys = sorted(exprs_s)
